@@ -247,3 +247,45 @@ func relaxedScript(s *Script, o *Obligation) string {
 	}
 	return b.String()
 }
+
+// PostProcess reconciles the per-return reachability guards with the negation canaries: on a return path whose
+// guard is refutable (dead path) a provable negation is expected and not a sign of an inconsistent context.
+// If every return path of a function is dead the function's contract is vacuous: that stays a failure.
+func PostProcess(s *Script) {
+	dead := map[string]bool{} // suffix -> dead
+	live := 0
+	total := 0
+	for _, o := range s.Obls {
+		if o.Kind == "reach" {
+			total++
+			if o.Status == "failed" {
+				sfx := ""
+				if i := strings.LastIndex(o.Name, "@r"); i > 0 {
+					sfx = o.Name[i:]
+				}
+				dead[sfx] = true
+			} else {
+				live++
+			}
+		}
+	}
+	for _, o := range s.Obls {
+		sfx := ""
+		if i := strings.LastIndex(o.Name, "@r"); i > 0 {
+			sfx = o.Name[i:]
+		}
+		switch {
+		case o.Kind == "reach" && o.Status == "failed":
+			if live > 0 {
+				o.Status = "discharged"
+				o.Detail += "; dead return path (unreachable under the contracts) — allowed because another return path is live"
+			} else {
+				o.Detail += "; every return path is unreachable: the contract is vacuous"
+			}
+		case o.Kind == "canary" && o.Status == "failed" && dead[sfx] && live > 0:
+			o.Status = "discharged"
+			o.Detail += "; on a dead return path"
+		}
+	}
+	_ = total
+}
